@@ -510,7 +510,7 @@ PROPS["C11"] = {
              "away, rename into place) plus empty creates and move-ins, so that histories are dense in the transitions in which a watch has "
              "to be dropped and re-added. during unit: the harness owns the schedule of one scan - the last file of one directory (any list "
              "position) is a symbolic link to a named pipe outside the configured directories, so NewCache / Configure(dirs) on a manual or "
-             "an auto cache blocks inside its scan until the harness feeds the pipe; in that window one generated change (create, rewrite, "
+             "an auto cache - or the first query after that directory, missing until then, was renamed into place - blocks inside its scan until the harness feeds the pipe; in that window one generated change (create, rewrite, "
              "remove, move-in, replace by rename, mkdir+file of a missing directory, remove or rename away a directory) is made in a directory "
              "already scanned or not yet scanned, the pipe is replaced by a regular file through a rename outside the watched directories, "
              "nothing changes afterwards, and the cache must converge to the fresh view. Non-trivial iff the history has a create-only event (move-in, link, empty create), a directory removed or "
